@@ -322,3 +322,57 @@ package ps
 //@   at return:
 //@     assert [timeout-is-error] done(ctx) ==> result.1 != nil
 //@     assert [checked] result.1 == nil ==> forall p uint16 :: p in tps.publicKeysOfParties && p != tps.Party ==> sha256(tps.publicKeysOfParties[p]) == string(tps.commitments[p])
+
+// ---- verifying and signing are side-effect free (C09): none of these functions changes a group or field element, a slice or
+// ---- a struct that existed before the call (their arguments, the proof, the key, the public parameters)
+
+//@ func (*BlindCorrectFormProof).Verify
+//@   props C09
+//@   modifies nothing
+//@
+//@ func (*PoKofSignaturePoCorrectForm).Verify
+//@   props C09
+//@   modifies nothing
+//@
+//@ func (*PoKofSignaturePoCorrectForm).checkcommitmentForm
+//@   props C09
+//@   modifies nothing
+//@
+//@ func (*SigPoK).Verify
+//@   props C09
+//@   modifies nothing
+//@
+//@ func SignBlindSignature
+//@   props C09
+//@   modifies nothing
+//@
+//@ func randomOracleForBlindingProof
+//@   props C09
+//@   modifies heap:L!hash!data, heap:L!hash!key
+//@
+//@ func randomOracleForPoKofSignature
+//@   props C09
+//@   modifies heap:L!hash!data, heap:L!hash!key
+//@
+//@ func UnBlind
+//@   props C09
+//@   modifies nothing
+
+// ---- each share is combined under the evaluation point of its own signer (C09) ------------------------------------------
+
+//@ func (*Prover).Init
+//@   props C09
+//@   requires curve != nil
+//@   requires [distinct] forall a int, b int :: 0 <= a && a < b && b < len(parties) ==> parties[a] != parties[b]
+//@   // the i-th party of the list gets evaluation point i+1 (the point the key generation gave it)
+//@   ensures [points] result == nil ==> p.parties2EvalPoints != nil && forall i int :: { parties[i] } 0 <= i && i < len(parties) ==> parties[i] in p.parties2EvalPoints && p.parties2EvalPoints[parties[i]] == i + 1
+//@   loop 0: invariant [points] p.parties2EvalPoints != nil && forall i int :: { parties[i] } 0 <= i && i <= rangeindex ==> parties[i] in p.parties2EvalPoints && p.parties2EvalPoints[parties[i]] == i + 1
+//@
+//@ func (*Prover).ProveKnowledgeOfSignature
+//@   props C09
+//@   requires p.parties2EvalPoints != nil
+//@   on-call lagrangeCoefficient(at, pts):
+//@     assert [own-index] 0 <= i#2 && i#2 < len(signers) && at == p.parties2EvalPoints[signers[i#2]] && len(pts) == len(signers) &&
+//@                        forall m int :: 0 <= m && m < len(signers) ==> pts[m] == p.parties2EvalPoints[signers[m]]
+//@   loop 0: invariant [points] len(evaluationPoints) == len(signers) && forall m int :: 0 <= m && m <= rangeindex#1 ==> signers[m] in p.parties2EvalPoints && evaluationPoints[m] == p.parties2EvalPoints[signers[m]]
+//@   loop 1: invariant [points] len(evaluationPoints) == len(signers) && forall m int :: 0 <= m && m < len(signers) ==> evaluationPoints[m] == p.parties2EvalPoints[signers[m]]
